@@ -14,8 +14,9 @@ behaviour outside every property, or a gap in a monitor.
 """
 import argparse, glob, hashlib, json, os, re, subprocess, sys, time
 
-MREPO = "/var/tmp/mut/repo"
-MVERIF = "/var/tmp/mut/verif"
+MROOT = os.environ.get("MUTROOT", "/var/tmp/mut")
+MREPO = MROOT + "/repo"
+MVERIF = MROOT + "/verif"
 ENV = dict(os.environ, GOFLAGS="-mod=mod", GOPROXY="off", GOSUMDB="off", GOTOOLCHAIN="local",
            VERIF_CORPUS=MVERIF + "/corpus")
 GO = "go1.26.8"
@@ -154,7 +155,7 @@ def main():
     ap = argparse.ArgumentParser()
     ap.add_argument("--files", nargs="*", default=[])
     ap.add_argument("--max-per-file", type=int, default=40)
-    ap.add_argument("--out", default="/var/tmp/mut/results.jsonl")
+    ap.add_argument("--out", default=MROOT + "/results.jsonl")
     ap.add_argument("--stage2", action="store_true", help="also run C03/C08/C20/C09 on mutants no mapped check caught")
     ap.add_argument("--all-checks", action="store_true", help="run every mapped check even after one caught the mutant")
     a = ap.parse_args()
